@@ -252,6 +252,10 @@ func (w *response) WriteHeader(code int) {
 		} else {
 			log.Logger.Warn("http: invalid Content-Length of %q", cl)
 			w.handlerHeader.Del("Content-Length")
+			if w.cw.header != nil {
+				// the snapshot taken above is what gets written
+				w.cw.header.Del("Content-Length")
+			}
 		}
 	}
 }
